@@ -266,6 +266,11 @@ def _fi_layer_query(ex, st, k):
         ok = len(auth) == 1 and len(filt) == 1 and auth[0][0] < filt[0][0] < gets[0][0] and \
             isinstance(auth[0][1].result, VSeq) and len(filt[0][1].args) == 4 and \
             filt[0][1].args[-1] is auth[0][1].result.items[0] and filt[0][1].args[1] is st.env['actual_layers']
+        if ok:
+            from pyvc.values import VStr as _VStr
+            a_ = [x for x in auth[0][1].args if x is not st.env['self']]
+            chk_ = _named(st, 'check_featureinfo_request', 'WMSServer.check_featureinfo_request')
+            ok = bool(a_) and isinstance(a_[0], _VStr) and a_[0].conc() == 'featureinfo' and len(chk_) == 1 and chk_[0][0] < auth[0][0]
         goal = z3.BoolVal(bool(ok))
         if ok:
             cov = auth[0][1].result.items[1]
@@ -308,8 +313,29 @@ def _map_protocol(ex, st, post, result):
     ok = len(auth) == 1 and len(filt) == 1 and len(rend) == 1 and len(merges) == 1 and \
         auth[0][0] < filt[0][0] < rend[0][0] < merges[0][0] and isinstance(auth[0][1].result, VSeq) and \
         len(filt[0][1].args) == 4 and filt[0][1].args[-1] is auth[0][1].result.items[0]
-    yield ('map_authorization_before_rendering', z3.BoolVal(bool(ok)),
-           'authorized_layers -> filter_actual_layers(.., that decision) -> LayerRenderer -> merge, each exactly once')
+    # request limits are checked first (C16); the layers are rendered INTO the merger whose result is returned
+    chk = _named(st, 'check_map_request', 'WMSServer.check_map_request')
+    rr = _named(st, 'render')
+    mk = _named(st, 'LayerMerger')
+    ok = ok and len(chk) == 1 and chk[0][0] < auth[0][0] and len(mk) == 1 and len(rr) == 1 and \
+        rend[0][0] < rr[0][0] < merges[0][0] and rr[0][1].recv is not None and rr[0][1].recv.t.eq(rend[0][1].result.t) and \
+        rr[0][1].args[-1] is mk[0][1].result and merges[0][1].recv is not None and merges[0][1].recv.t.eq(mk[0][1].result.t)
+    if ok:
+        # the callback is asked about the feature 'map'
+        from pyvc.values import VStr as _VStr
+        a_ = [x for x in auth[0][1].args if x is not post.env['self']]
+        ok = bool(a_) and isinstance(a_[0], _VStr) and a_[0].conc() == 'map'
+    mq = _named(st, 'MapQuery')
+    if ok and mq and 'params' in st.env:
+        from pyvc.values import eq as _eq
+        p_ = st.env['params']
+        g_q = z3.And(_eq(mq[0][1].args[0], ex.opaque_field_at(st, mq[0][1], p_, 'bbox')),
+                     _eq(mq[0][1].args[1], ex.opaque_field_at(st, mq[0][1], p_, 'size')))
+    else:
+        g_q = z3.BoolVal(bool(ok))
+    yield ('map_authorization_before_rendering', z3.And(z3.BoolVal(bool(ok)), g_q),
+           'check_map_request -> MapQuery(params.bbox, params.size, ..) -> authorized_layers -> filter_actual_layers(.., that '
+           'decision) -> LayerRenderer -> renderer.render(merger) -> merger.merge, each exactly once')
     if not ok:
         return
     m = merges[0][1]
@@ -425,3 +451,29 @@ from pyvc.api import REG as _REG  # noqa
 _c = _REG.contracts[WMS + 'WMSServer.map']
 _c['props'] = sorted(set(_c['props']) | {'C14'})
 _REG.loops[(WMS + 'WMSServer.map', 0)]['body_trace'] = [_prune_only_below_opaque]
+
+
+# ---- C20: WMS(-C) responses: an uncacheable result is always sent with the no-cache headers -----------------------------------
+def _map_uncacheable_no_store(ex, st, post, result):
+    import z3
+    resp = T.evs(st, 'Response')
+    if not resp or not T.evs(st, 'merge'):
+        return
+    ch = [e for i, e in T.evs(st, 'cache_headers')]
+    dec = [e for i, e in T.evs(st, 'decorate_img', 'WMSServer.decorate_img')]
+    goal = z3.BoolVal(len(dec) == 1)
+    if dec:
+        img = dec[0].result
+        cacheable = ex.truth(st, ex.opaque_field(st, img, 'cacheable'))
+        last_no_cache = z3.BoolVal(bool(ch) and 'no_cache' in ch[-1].kwargs and not [a for a in ch[-1].args if a is not ch[-1].recv]) 
+        if ch and 'no_cache' in ch[-1].kwargs:
+            last_no_cache = z3.And(last_no_cache, ex.truth(st, ch[-1].kwargs['no_cache']))
+        goal = z3.And(goal, z3.Or(cacheable, last_no_cache))
+    yield ('uncacheable_map_gets_no_cache_headers', goal,
+           'if the composed image is not cacheable (an upstream error was mapped to a fill image) the last word on caching is '
+           'cache_headers(no_cache=True), also for tiled WMS-C requests')
+
+
+_c['props'] = sorted(set(_c['props']) | {'C20'})
+_c['trace'] = list(_c['trace']) + [_map_uncacheable_no_store]
+_c['opaque_fields'] = dict(_c['opaque_fields'], cacheable='opaque')
